@@ -203,12 +203,13 @@ let handle (line : string) : string =
   | L [A "drop"; id] -> Hashtbl.remove docs (int_of_sx id); "ok"
   | L [A "dump"; id] ->
       let b = Buffer.create 256 in dump_node b (Hashtbl.find docs (int_of_sx id)); Buffer.contents b
-  | L [A "q"; id; root; L nss; L vars; L funs; e] ->
+  | L [A (("q" | "qa") as cmd); id; root; L nss; L vars; L funs; e] ->
       let d = Hashtbl.find docs (int_of_sx id) in
       let en = { M.e_doc = d; M.e_root = path_of_sx root;
                  M.e_ns = List.map (function L [A "ns"; a; b] -> (str_of_sx a, str_of_sx b) | _ -> failwith "ns") nss;
                  M.e_vars = List.map (function L [A "v"; a; b; v] -> (qname_of a b, value_of_sx v) | _ -> failwith "var") vars;
-                 M.e_funs = List.map (function L [A "fn"; a; b; f] -> (qname_of a b, ufun_of_sx f) | _ -> failwith "fn") funs } in
+                 M.e_funs = List.map (function L [A "fn"; a; b; f] -> (qname_of a b, ufun_of_sx f) | _ -> failwith "fn") funs;
+                 M.e_asis = (cmd = "qa") } in
       show_res (M.exec en (expr_of_sx e))
   | L [A "sv"; id; p] -> "S " ^ show_str (M.string_value (Hashtbl.find docs (int_of_sx id)) (path_of_sx p))
   | L [A "tostr"; A h] -> "S " ^ show_str (M.num_to_str (M.f_of_bits (z_of_hex h)))
